@@ -8,6 +8,8 @@ import TcVerif.Model.Store
 import TcVerif.Model.Gcra
 import TcVerif.Model.Bucket
 import TcVerif.Model.RespDriver
+import TcVerif.Model.MetricsDriver
+import TcVerif.Model.ActorDriver
 open TcVerif
 
 structure DState where
@@ -121,7 +123,13 @@ def step (st : DState) (line : String) : DState × String :=
   | _ =>
     match TcVerif.Resp.driverStep line with
     | some o => (st, o)
-    | none => (st, "bad-op")
+    | none =>
+      match TcVerif.Metrics.driverStep line with
+      | some o => (st, o)
+      | none =>
+        match TcVerif.Actor.driverStep line with
+        | some o => (st, o)
+        | none => (st, "bad-op")
 
 partial def loop (h : IO.FS.Stream) (out : IO.FS.Stream) (st : DState) : IO Unit := do
   let line ← h.getLine
